@@ -219,6 +219,62 @@ def error_states(ctx, P):
     ctx.floor(P + ':S09-3:floor', 'Read/BufRead impls with an Error-state arm', n, 4)
 
 
+FILL_GUARANTEES_DATA = {   # reviewed by reading: Ok(()) from the fill step implies `data available` in this non-terminal state
+    ('composed::message::reader::compressed::CompressedDataReader<R>', 'Body'): 'fill_inner leaves Body only with a non-empty decompressor buffer (fill_buf of the decompressor returned data), otherwise it moves to Done',
+    ('composed::message::reader::literal::LiteralDataReader<R>', 'Body'): 'fill_inner: read < BUFFER_SIZE => Done, else Body with a full buffer',
+    ("composed::message::reader::signed_many::SignatureManyReader<'_>", 'Body'): 'fill_inner: Body is kept only after a non-empty read; read == 0 moves to Done after the trailing signatures were read',
+    ('crypto::sym::decryptor::StreamDecryptorInner<M, R>', 'Data'): 'fill_inner: a non-last fill leaves BUFFER_SIZE - 22 octets available, the last one moves to Done',
+}
+TERMINAL = ('Done',)
+
+
+def zero_means_end(ctx, P):
+    """`read` returning Ok(0) for a non-empty buffer means end of stream to every consumer (io::copy, read_exact, read loops).  A reader
+    built as a state enum that, in the arm of a NON-terminal state, hands out min(buf.len(), <stage buffer>.remaining()) right after one
+    fill step must not return that value when it is 0: either the value is guarded by an emptiness / `> 0` test whose other edge does
+    not return it, or the fill step is reviewed to guarantee data in that state."""
+    n = 0
+    for p, r in sorted(ctx.f.bodies.items()):
+        if not p.endswith('as std::io::Read>::read') or '::tests::' in p:
+            continue
+        b = ctx.wrap(r)
+        ty = p[1:].split(' as ')[0]
+        selfty = re.sub(r'<.*', '', ty).split('::')[-1]
+        dom = None
+        sized = []
+        for i, k, s_ in b.stmts(lambda s: s['r']['k'] == 'agg' and s['r'].get('v') == 'Ok' and s['d']['l'] == 0 and not s['d']['pr']):
+            if not has_origin(b.operand_origins(s_['r']['o'][0]), r'call:.*(Buf::remaining|::min)$|field:.*data_available$'):
+                continue
+            dom = dom or b.dominators()
+            arms = [vs for a, vs in arm_context(b, i, dom) if a == selfty]
+            for vs in arms[-1:]:
+                for v in vs:
+                    if v not in TERMINAL:
+                        sized.append((i, v, s_))
+        # a result computed after the match (value merged from the arms) counts for every non-terminal arm that defines it
+        if not sized:
+            ctx.functions.discard(p)
+            continue
+        for i, v, s_ in sized:
+            n += 1
+            key = '%s:S09-6:zero-means-end:%s:%s' % (P, ty, v)
+            desc = '%s::read in state %s hands out its stage buffer only when an empty one cannot be mistaken for end of stream' % (selfty, v)
+            val = set(x for x in b.operand_origins(s_['r']['o'][0]) if x.startswith(('call:', 'field:')))
+            gs = [g for g, t in b.switches() if has_origin(b.switch_origins(g), r'call:.*(has_remaining|is_empty)$|op:(Gt|Ne|Eq|Lt)$')
+                  and (val & set(x for x in b.switch_origins(g) if x.startswith(('call:', 'field:'))))]
+            gs = [g for g in gs if any(i not in b.reach_from([j]) for j, _ in b.succ(g))]
+            ok, _ = must_pass(b, [i], gs) if gs else (False, None)
+            if ok:
+                ctx.ok(key, 'R-dom', desc + ' (guarded by an emptiness test)', function=p, guards=[site(b, g) for g in gs])
+            elif (ty, v) in FILL_GUARANTEES_DATA:
+                ctx.ok(key, 'R-dom', desc + ' — reviewed fill postcondition: ' + FILL_GUARANTEES_DATA[(ty, v)], function=p, feature='reviewed')
+            else:
+                ctx.violation(key, 'R-dom', desc, function=p, site=site(b, i),
+                              missing='read() returns min(buf.len(), stage.remaining()) after a single fill step; when stage %s is exhausted (e.g. an empty source right after the prefix) '
+                                      'this is Ok(0) although later stages still have output: consumers driven by read() stop early' % v)
+    ctx.floor(P + ':S09-6:floor', 'non-terminal state arms of Read impls that size their result from a stage buffer', n, 5)
+
+
 def fill_loops(ctx, P):
     for path in ('util::fill_buffer', 'util::fill_buffer_bytes'):
         b = ctx.body(path)
